@@ -118,17 +118,40 @@ def db() -> _Db:
     return _DB
 
 
-_PAREN_COMPOUND = re.compile(r"(^|UNION ALL |UNION |\()\((?=\(*SELECT)")
+def _matching_paren(s: str, i: int) -> int:
+    depth = 0
+    for j in range(i, len(s)):
+        ch = s[j]
+        if ch == "(":
+            depth += 1
+        elif ch == ")":
+            depth -= 1
+            if depth == 0:
+                return j
+    raise ValueError("unbalanced parentheses in SQL text")
 
 
 def sqlite_fix(s: str) -> str:
-    """SQLite has no parenthesised compound operand; rewrite ``(SELECT ..)`` operands as
-    ``SELECT * FROM (SELECT ..)`` (multiset- and order-preserving).  See DESIGN 2.3."""
+    """SQLite has no parenthesised compound-select *operand*: the library renders nested chains as
+    ``(SELECT .. UNION ALL SELECT ..) UNION ALL ..`` (pinned by tests/test_sql_engine.py::test_chains;
+    PostgreSQL accepts it).  Rewrite exactly those operands - a parenthesised group that starts with
+    SELECT (or another such group) and is directly preceded or followed by UNION [ALL] - as
+    ``SELECT * FROM ( .. )``, which preserves multiset and order.  Nothing else is touched.  DESIGN 2.3."""
+    i = 0
     while True:
-        n = _PAREN_COMPOUND.sub(lambda m: m.group(1) + "SELECT * FROM (", s)
-        if n == s:
+        i = s.find("(", i)
+        if i < 0:
             return s
-        s = n
+        rest = s[i + 1 :].lstrip()
+        if rest.startswith("SELECT") or rest.startswith("("):
+            j = _matching_paren(s, i)
+            before = s[:i].rstrip()
+            after = s[j + 1 :].lstrip()
+            if before.endswith("UNION ALL") or before.endswith("UNION") or after.startswith("UNION"):
+                s = s[:i] + "SELECT * FROM (" + s[i + 1 :]
+                i += len("SELECT * FROM (")
+                continue
+        i += 1
 
 
 def compile_sql(engine, relation):
